@@ -141,10 +141,10 @@ func (s *Shrinker) Minimise(tr *Trace) *Trace {
 	for bi := range best.Blocks {
 		for ti := range best.Blocks[bi].Txs {
 			ts := best.Blocks[bi].Txs[ti]
-			if ts.SigFault != "" || ts.SeqDelta != 0 || ts.Check || ts.Granter != 0 {
+			if ts.SigFault != "" || ts.SeqDelta != 0 || ts.Check || ts.Granter != 0 || ts.Payer != 0 {
 				c := best.Clone()
 				x := &c.Blocks[bi].Txs[ti]
-				x.SigFault, x.SeqDelta, x.Check, x.Granter = "", 0, false, 0
+				x.SigFault, x.SeqDelta, x.Check, x.Granter, x.Payer = "", 0, false, 0, 0
 				if ok, _ := s.try(c); ok {
 					best = c
 				}
